@@ -141,9 +141,26 @@ func (g *ExecutionGraph) setError(err error) {
 
 // Duration returns execution duration
 func (g *ExecutionGraph) Duration() time.Duration {
+	g.errorMu.Lock()
+	defer g.errorMu.Unlock()
+
 	if g.end.IsZero() {
 		return time.Since(g.start)
 	}
 
 	return g.end.Sub(g.start)
+}
+
+// setStart and setEnd record when the graph was scheduled; a pipeline included
+// by several stages is scheduled concurrently
+func (g *ExecutionGraph) setStart(t time.Time) {
+	g.errorMu.Lock()
+	g.start = t
+	g.errorMu.Unlock()
+}
+
+func (g *ExecutionGraph) setEnd(t time.Time) {
+	g.errorMu.Lock()
+	g.end = t
+	g.errorMu.Unlock()
 }
